@@ -27,6 +27,10 @@ def indexesOf (sets : List (List Nat)) (target : List Nat) : List Nat :=
 /-- the hypothesis of the C03/C04 theorems, decidably: `cs` lists every concept of `t` exactly once -/
 def isConceptList (t : Table) (cs : List (List Nat × List Nat)) : Bool := cs.isPerm (allConcepts t)
 
+/-- the hypothesis of the pruned-lattice theorems, decidably: a duplicate-free list of concepts of `t` -/
+def isConceptSub (t : Table) (cs : List (List Nat × List Nat)) : Bool :=
+  decide cs.Nodup && cs.all fun c => isConcept t c.1 c.2
+
 /-- supports never increase along the listing -/
 def supportsNonIncreasing : List (List Nat × List Nat) → Bool
   | [] => true
@@ -54,19 +58,22 @@ def chainsOk (exts : List (List Nat)) (topExt : List Nat) (chains : List (List N
     chainSteps exts ch) &&
   (List.range exts.length).all fun i => chains.any fun ch => ch.contains i
 
+/-- the nodes (below `k`) whose label contains `x` -/
+def nodesOf (k : Nat) (labels : List (List Nat)) (x : Nat) : List Nat :=
+  (List.range k).filter fun i => (labels.getD i []).contains x
+
 /-- C04 checker: reconstruct the table from the labels and the ancestor sets.
-    `newExt[i]` / `newInt[i]` = the reduced labels of node `i`; `anc[i]` = the nodes above node `i`. -/
+    `newExt[i]` / `newInt[i]` = the reduced labels of node `i`; `anc[i]` = the nodes above node `i`.
+    (`Fca.C04.holdsC04_iff`: it is true exactly when every object / attribute labels exactly one node and
+    `table[g][a] ⇔ node(g) = node(a) ∨ node(a) ∈ anc[node(g)]`.) -/
 def holdsC04 (t : Table) (newExt newInt anc : List (List Nat)) : Bool :=
   let k := newExt.length
-  let nodesOfObj (g : Nat) := (List.range k).filter fun i => (newExt.getD i []).contains g
-  let nodesOfAttr (a : Nat) := (List.range k).filter fun i => (newInt.getD i []).contains a
   newInt.length == k && anc.length == k &&
-  ((List.range t.height).all fun g => (nodesOfObj g).length == 1) &&
-  ((List.range t.width).all fun a => (nodesOfAttr a).length == 1) &&
+  ((List.range t.height).all fun g => (nodesOf k newExt g).length == 1) &&
+  ((List.range t.width).all fun a => (nodesOf k newInt a).length == 1) &&
   ((List.range k).all fun i => (newExt.getD i []).all (· < t.height) && (newInt.getD i []).all (· < t.width)) &&
   ((List.range t.height).all fun g => (List.range t.width).all fun a =>
-    let i := (nodesOfObj g).headD 0
-    let j := (nodesOfAttr a).headD 0
-    t.get g a == (i == j || (anc.getD i []).contains j))
+    t.get g a == ((nodesOf k newExt g).headD 0 == (nodesOf k newInt a).headD 0 ||
+      (anc.getD ((nodesOf k newExt g).headD 0) []).contains ((nodesOf k newInt a).headD 0)))
 
 end Fca.Spec
